@@ -361,7 +361,7 @@ def band_complete(ctx, engine, a, n, out, order, desc, single, Qarg=None, outarg
     judge_band(engine, a, n, out, order, desc, single, F, back, a_ref)
 
 
-def judge_band(engine, a, n, out, order, desc, single, F, back, a_ref=None, via=''):
+def judge_band(engine, a, n, out, order, desc, single, F, back, a_ref=None, via='', cls=None):
     """Isometry + left-inverse laws of one band-complete trip a -> F (out samples, Q = out/n) -> back (n samples).  `via`: suffix
     of the key for trips made through other routines than the executors (the fixed-sampling wrappers)."""
     Q = (out[0] / n[0], out[1] / n[1])
@@ -379,7 +379,7 @@ def judge_band(engine, a, n, out, order, desc, single, F, back, a_ref=None, via=
     if r1 is None or r2 is None:
         CTX.observe(mon, -1)
         CTX.skip('band-complete: kernel phase beyond the resolution of the working precision (ill-conditioned)')
-        return
+        return None
     rel = max(r1, r2)
     etol = max(ETOL32 if single else ETOL64, 2 * rel if single else 0.0) * e_in
     rtol = rel * scale
@@ -388,7 +388,7 @@ def judge_band(engine, a, n, out, order, desc, single, F, back, a_ref=None, via=
     if not bad_energy and not bad_rt:
         stat(f'{mon}.energy/{"f32" if single else "f64"}', abs(e_F - e_in), etol)
         stat(f'{mon}.roundtrip/{"f32" if single else "f64"}', float(np.max(np.abs(back - a))), rtol)
-        return
+        return True
     detail = {'energy_ratio': e_F / e_in, 'roundtrip_err': (float(np.max(np.abs(back - a))) if back.shape == a.shape else None), 'tol': rtol}
     if engine == 'czt' and F.shape == tuple(out):
         # attribute to the C01 chirp-Z defects (models from c01.diagnose_czt), leg by leg
@@ -419,14 +419,15 @@ def judge_band(engine, a, n, out, order, desc, single, F, back, a_ref=None, via=
                 CTX.violation(f'C02/czt/band-complete/caused-by:{C01_CAUSE_KEY[c]}',
                               'czt2 -> iczt2 on the band-complete grid (integer out >= n, Q = out/n) does not conserve energy / return the '
                               'field; consequence of the chirp-Z defect ' + C01_CAUSE_KEY[c], desc, explained_by=sorted(causes), **detail)
-            return
-    cls = f'{shape_kind(n)}->{shape_kind(out)}' + via
+            return False
+    cls = (f'{shape_kind(n)}->{shape_kind(out)}' + via) if cls is None else cls
     if bad_energy:
         CTX.violation(f'C02/{engine}/band-complete/energy/{cls}',
                       f'{engine} transform onto the full band (out = n*Q) is not an isometry', desc, **detail)
     if bad_rt:
         CTX.violation(f'C02/{engine}/band-complete/roundtrip/{cls}',
                       f'{engine} transform onto the full band followed by its inverse does not return the field', desc, **detail)
+    return False
 
 
 def wl_band_complete(ctx, rng):
@@ -1098,6 +1099,625 @@ def wl_band_history(ctx, rng):
     fttools.czt.clear()
 
 
+# ---- hardening pass 3: classes G (magnitudes, units), H (special values, one-axis shifts), I (sizes) ------------------------
+RULE = RULE + ('.  Hardening pass 3 -- class H: the band-complete pair WITH a shift (x only, y only, both; int and fractional samples; the zero '
+               'component as int 0 and float 0.0) at executor level (mdft: isometry and round trip with the same sample shift on the way back, both '
+               'orders; czt: isometry) and through the fixed-sampling pair / to_fpm_and_back with an all-pass mask (function and Wavefront form, both '
+               'orders, spacings != 1 in both planes, shift in output units on each leg); free space at z = 0 (float, -0.0, int, numpy scalar), '
+               '+-5e-324, +-1e-300, +-1e-30; Q exactly 1 through every route.  Class G: every linear routine at field magnitudes 1e-12 ... 1e12 '
+               '(homogeneity f(s a) = s f(a) and the ordinary laws on the scaled field); free space and the fixed-sampling pair under consistent '
+               'changes of units (dx, wavelength, z; dx, efl, wavelength, output dx and shift).  Class I: band-complete pairs on thin arrays whose '
+               'long axis has 340 ... 1024 samples and Q = M / n within 1e-3 of an integer without being one (also through the wrappers), FFT pair '
+               'and free space at prime / awkward lengths 65 ... 1024 (thin and 2-D)')
+ASSUMPTIONS = ASSUMPTIONS + [
+    'shifted band-complete pair: mdft subtracts the shift from the coordinate vectors of both planes, so idft2(dft2(a, Q, out, s), 1, n, s) = a and '
+    'both legs are isometries for any real s (measured 1e-15); czt shifts the output coordinates only: isometry is required, the round trip is not '
+    '(C05 ledger entry to_fpm_and_back/czt/shift!=0) -- excluded and counted',
+    'homogeneity is compared at 1e-11 (float32: 1e-3) of max|s f(a)| (observed <= 4 eps); unit invariance at 1e-10 + 500 eps * transfer-function phase '
+    '(free space) / the band-pair tolerance (wrappers); powers of two must not be bit-exact -- only close',
+    'free space by |z| <= 1e-30 mm is the identity to 1e-10 (the true phase is < 1e-25 rad)',
+]
+REQUIRED = REQUIRED + ['special.shifted-band-pair', 'special.free-space-z', 'scale.homogeneity', 'scale.unit-invariance', 'size.near-integer-Q',
+                       'size.awkward']
+HOMOG64, HOMOG32 = 1e-11, 1e-3
+
+
+def shift_label(s):
+    return 'none' if (s[0] == 0 and s[1] == 0) else ('x-only' if s[1] == 0 else ('y-only' if s[0] == 0 else 'both'))
+
+
+def shift_mech(s):
+    """Mechanism class of a shift for violation keys: exactly one zero component / both non-zero."""
+    lab = shift_label(s)
+    return 'one-axis' if lab in ('x-only', 'y-only') else lab
+
+
+def judge_shifted(engine, a, n, out, s, desc, single, F, back, level='executors', cls=None):
+    """One band-complete trip WITH a shift of s = (sx, sy) output samples on both legs: isometry (both engines), left inverse (mdft).
+    Keys name the shift class and the level (executors / wrappers) only; `cls` replaces both (size workloads).  Returns True when held."""
+    mon = 'special.shifted-band-pair'
+    CTX.observe(mon)
+    Q = (out[0] / n[0], out[1] / n[1])
+    sf = (float(s[0]), float(s[1]))
+    r1 = rtol_for(engine, single, n, Q, out, sf)
+    r2 = rtol_for(engine, single, out, (1.0, 1.0), n, sf)
+    if r1 is None or r2 is None:
+        CTX.observe(mon, -1)
+        CTX.skip('band-complete: kernel phase beyond the resolution of the working precision (ill-conditioned)')
+        return None
+    rel = max(r1, r2)
+    e_in, e_F = energy(a), energy(F)
+    F = np.asarray(F)
+    etol = max(ETOL32 if single else ETOL64, 2 * rel if single else 0.0) * e_in
+    cls = f'special:shift-{shift_mech(s)}/{level}' if cls is None else cls
+    detail = {'energy_ratio': e_F / e_in if e_in else None}
+    ok = True
+    if F.shape != tuple(out) or not abs(e_F - e_in) <= etol:
+        ok = False
+        CTX.violation(f'C02/{engine}/band-complete/energy/{cls}',
+                      f'{engine} transform onto the full band (out = n*Q) with a shift of the output grid is not an isometry', desc, **detail)
+    else:
+        stat(f'{mon}.energy/{"f32" if single else "f64"}', abs(e_F - e_in), etol)
+    if engine != 'mdft':
+        CTX.skip('shifted band-complete pair through czt: isometry only (czt shifts the output coordinates alone; the round trip is the C05 ledger entry)')
+        return ok
+    back = np.asarray(back)
+    scale = float(np.sqrt(np.sum(np.abs(np.asarray(a).astype(np.complex128)) ** 2)))
+    rtol = rel * scale
+    err = float(np.max(np.abs(back - a))) if (back.shape == np.shape(a) and np.isfinite(back).all()) else float('inf')
+    if not err <= rtol:
+        CTX.violation(f'C02/{engine}/band-complete/roundtrip/{cls}',
+                      f'{engine} transform onto the full band with a shift, followed by its inverse with the same shift in samples, does not return the field',
+                      desc, roundtrip_err=err, tol=rtol, **detail)
+        return False
+    stat(f'{mon}.roundtrip/{"f32" if single else "f64"}', err, rtol)
+    return ok
+
+
+def _engine_fns(engine):
+    from prysm import fttools
+    ex = fttools.mdft if engine == 'mdft' else fttools.czt
+    return (ex.dft2, ex.idft2) if engine == 'mdft' else (ex.czt2, ex.iczt2)
+
+
+def _typed_shift(s, unit):
+    """(sx, sy) samples -> output units, keeping an int 0 an int 0 (the library tests the components for truth / != 0)."""
+    return tuple((v * unit if v != 0 else v) for v in s)
+
+
+def wl_shifted_band(ctx, rng):
+    """Class H at executor level: the band-complete pair with every shift pattern (one zero component, both, int / fractional)."""
+    from prysm import fttools
+    from .. import propforms as PF
+    from ..util import precision
+    shapes = shapes_upto(ctx.pick(5, 12)) + [(1, 12), (13, 1), (7, 16), (16, 5)] + ctx.pick([], [(1, 64), (96, 2), (33, 47), (64, 64)])
+    grows = [(0, 0), (1, 0), (0, 3), (2, 2), (5, 4)] + ctx.pick([], [(7, 1), (3, 9), (12, 12), (1, 1), (0, 21), (30, 2)])
+    pats = [p for p in PF.SHIFT_PATTERNS if p[0] != 'none']
+    k = -1
+    for (n0, n1) in shapes:
+        for (d0, d1) in grows:
+            for engine in ('mdft', 'czt'):
+                for order in ('fwd-inv', 'inv-fwd'):
+                    for pname, s in pats:
+                        k += 1
+                        if not ctx.mine(k):
+                            continue
+                        if (k // ctx.nshards) % 256 == 255:
+                            fttools.mdft.clear()
+                            fttools.czt.clear()
+                        if not ctx.quick and (k // ctx.nshards) % 3 == 2:      # thorough: random shifts of the same pattern
+                            s = tuple((round(float(rng.uniform(-6, 6)), 3) or 1.0) if v != 0 else v for v in s)
+                        n, out = (n0, n1), (n0 + d0, n1 + d1)
+                        bits = 32 if (k // ctx.nshards) % 7 == 6 else 64
+                        seed = ctx.subseed(rng)
+                        dk = DATA_KINDS[(k // ctx.nshards) % len(DATA_KINDS)]
+                        a = field_of_kind(dk, n, seed, bits)
+                        desc = {'wl': 'shifted-band', 'engine': engine, 'order': order, 'n': n, 'out': out, 'shift_samples': s, 'bits': bits, 'seed': seed,
+                                'field_dtype': str(a.dtype), 'class': f'shifted-band:{engine}:{order}:{shape_kind(n)}:{axes_class(n, out)}:{pname}:f{bits}'
+                                + (f':{dk}' if dk != 'complex' else '')}
+                        ctx.case(desc, nontrivial=nontrivial(a))
+                        if not nontrivial(a):
+                            continue
+                        CUR['desc'] = desc
+                        try:
+                            with precision(bits), ctx.guard(f'C02/{engine}/band-complete/special:shift-{pname}', desc):
+                                f_fwd, f_inv = _engine_fns(engine)
+                                first, second = (f_fwd, f_inv) if order == 'fwd-inv' else (f_inv, f_fwd)
+                                Q = (out[0] / n[0], out[1] / n[1])
+                                F = first(a, Q, out, s)
+                                back = second(F, 1, n, s)
+                                judge_shifted(engine, a, n, out, s, desc, bits == 32, F, back)
+                        finally:
+                            CUR['desc'] = None
+    fttools.mdft.clear()
+    fttools.czt.clear()
+
+
+def _band_geometry(rng, m, n, Pb):
+    wvl = [0.5, 0.6328, 1.55][int(rng.integers(3))]
+    efl = [50., 100., 250.][int(rng.integers(3))]
+    d1 = [0.1, 0.05, 7.5, 0.37][int(rng.integers(4))]
+    d2 = wvl * efl / (Pb * d1)
+    if abs(d2 - 1.0) < 1e-3:
+        efl *= 1.37
+        d2 = wvl * efl / (Pb * d1)
+    return wvl, efl, d1, d2
+
+
+def wrapper_trip(P, via, order, a, shp, Pb, wvl, efl, d1, d2, s, method):
+    """The field a (shape shp, spacing d1) onto one period Pb x Pb of the other plane (spacing d2) with a shift of s samples of the
+    output grid, and back with the same shift in samples (in the units of the return leg's output).  Returns (F, back)."""
+    s1, s2 = _typed_shift(s, d2), _typed_shift(s, d1)
+    f1, f2 = ('focus_fixed_sampling', 'unfocus_fixed_sampling') if order == 'focus-first' else ('unfocus_fixed_sampling', 'focus_fixed_sampling')
+    kw1 = {'method': method} if shift_label(s) == 'none' and method != 'mdft' else {'shift': s1, 'method': method}
+    if via == 'function':
+        F = np.array(getattr(P, f1)(a, d1, efl, wvl, d2, (Pb, Pb), **kw1), copy=True)
+        back = getattr(P, f2)(F, d2, efl, wvl, d1, shp, shift=s2, method=method)
+    elif via == 'Wavefront':
+        w = P.Wavefront(a, wvl, d1, space='pupil' if order == 'focus-first' else 'psf')
+        Fw = getattr(w, f1)(efl, d2, (Pb, Pb), **kw1)
+        F = np.array(Fw.data, copy=True)
+        back = getattr(Fw, f2)(efl, d1, shp, shift=s2, method=method).data
+    elif via == 'to_fpm_and_back':
+        back, F, _ = P.to_fpm_and_back(a, d1, efl, wvl, np.ones((Pb, Pb)), d2, shift=s1, method=method, return_more=True)
+    else:
+        r = P.Wavefront(a, wvl, d1).to_fpm_and_back(efl, np.ones((Pb, Pb)), d2, method=method, shift=s1, return_more=True)
+        back, F = r[0].data, r[1].data
+    return np.asarray(F), np.asarray(back)
+
+
+WRAPPER_VIAS = ('function', 'Wavefront', 'to_fpm_and_back', 'Wavefront.to_fpm_and_back')
+
+
+def wl_shifted_wrappers(ctx, rng):
+    """Class H through the wrappers: the band-complete pair with a shift in OUTPUT UNITS on each leg (spacings != 1 in both
+    planes): hand-made focus -> unfocus pair (both orders, function and Wavefront form) and to_fpm_and_back with an all-pass mask."""
+    from prysm import propagation as P, fttools
+    from .. import propforms as PF
+    from ..util import precision
+    k = -1
+    for rep in range(ctx.pick(6, 1500)):
+        for via in WRAPPER_VIAS:
+            for method in ('mdft', 'czt'):
+                for pname, s in PF.SHIFT_PATTERNS:
+                    k += 1
+                    if not ctx.mine(k):
+                        continue
+                    if (k // ctx.nshards) % 128 == 127:
+                        fttools.mdft.clear()
+                        fttools.czt.clear()
+                    hi = ctx.pick(10, 25)
+                    m, n = (int(v) for v in rng.integers(2, hi, 2))
+                    if rng.random() < 0.4:
+                        n = m
+                    Pb = max(m, n) + int(rng.integers(0, ctx.pick(8, 20)))
+                    order = 'focus-first' if via.endswith('to_fpm_and_back') else ('focus-first', 'unfocus-first')[int(rng.integers(2))]
+                    bits = 32 if rng.random() < 0.15 else 64
+                    wvl, efl, d1, d2 = _band_geometry(rng, m, n, Pb)
+                    seed = ctx.subseed(rng)
+                    a = make_input((m, n), True, seed, bits=bits)
+                    desc = {'wl': 'shifted-wrappers', 'engine': method, 'order': order, 'n': (m, n), 'out': (Pb, Pb), 'via': via, 'bits': bits, 'wvl': wvl, 'efl': efl,
+                            'd1': d1, 'd2': d2, 'shift_samples': s, 'seed': seed, 'k': 0,
+                            'class': f'shifted-wrappers:{method}:{via}:{order}:{shape_kind((m, n))}:{pname}:p{bits}'}
+                    ctx.case(desc, nontrivial=nontrivial(a))
+                    CUR['desc'] = desc
+                    try:
+                        with precision(bits), ctx.guard(f'C02/{method}/band-complete/special:shift-{pname}', desc):
+                            F, back = wrapper_trip(P, via, order, a, (m, n), Pb, wvl, efl, d1, d2, s, method)
+                            if pname == 'none':
+                                judge_band(method, a, (m, n), (Pb, Pb), 'fwd-inv' if order == 'focus-first' else 'inv-fwd', desc, bits == 32, F, back,
+                                           via='/fixed-sampling-pair')
+                            else:
+                                judge_shifted(method, a, (m, n), (Pb, Pb), s, desc, bits == 32, F, back, level='wrappers')
+                    finally:
+                        CUR['desc'] = None
+    fttools.mdft.clear()
+    fttools.czt.clear()
+
+
+def wl_near_integer(ctx, rng):
+    """Class I: band-complete pairs whose Q = M / n is within 1e-3 of an integer without being one (needs axes of 340 ... 1024
+    samples): thin arrays at executor level (both engines, both orders, with and without a shift along the long axis) and a few
+    through the fixed-sampling wrappers / to_fpm_and_back (one P x P period)."""
+    from prysm import propagation as P, fttools
+    from .. import propforms as PF
+    from ..util import precision
+    pairs = list(PF.NEAR_INTEGER_PAIRS)
+    if not ctx.quick:
+        g = np.random.default_rng([ctx.seed, 4242])
+        for _ in range(40):
+            kq = int(g.integers(1, 4))
+            nn = int(g.integers(max(334, -(-1000 // kq)), 1100))
+            pairs.append((nn, kq * nn + (1 if (kq == 1 or g.random() < 0.5) else -1)))
+    k = -1
+    for (nn, MM) in pairs:
+        for tk in range(ctx.pick(2, 4)):
+            for engine in ('mdft', 'czt'):
+                for order in ('fwd-inv', 'inv-fwd'):
+                    for shifted in (False, True):
+                        k += 1
+                        if not ctx.mine(k):
+                            continue
+                        n = PF.thin(nn, tk + (k // 8))
+                        out = tuple(MM if v == nn else v for v in n)
+                        along_x = n[1] == nn
+                        s = (0, 0) if not shifted else ((2.5, 0) if along_x else (0.0, -3))
+                        bits = 64
+                        seed = ctx.subseed(rng)
+                        a = make_input(n, True, seed)
+                        desc = {'wl': 'near-integer-Q', 'engine': engine, 'order': order, 'n': n, 'out': out, 'Q_long_axis': MM / nn, 'shift_samples': s, 'seed': seed, 'k': 0,
+                                'class': f'near-integer-Q:{engine}:{order}:{shape_kind(n)}:Q~{round(MM / nn)}:{"shifted" if shifted else "unshifted"}'}
+                        ctx.case(desc)
+                        ctx.observe('size.near-integer-Q')
+                        CUR['desc'] = desc
+                        try:
+                            with precision(bits), ctx.guard(f'C02/{engine}/band-complete/size:near-integer-Q', desc):
+                                f_fwd, f_inv = _engine_fns(engine)
+                                first, second = (f_fwd, f_inv) if order == 'fwd-inv' else (f_inv, f_fwd)
+                                Q = (out[0] / n[0], out[1] / n[1])
+                                if shifted:
+                                    F = first(a, Q, out, s)
+                                    judge_shifted(engine, a, n, out, s, desc, False, F, second(F, 1, n, s), cls='size:near-integer-Q')
+                                else:
+                                    F = first(a, Q, out)
+                                    judge_band(engine, a, n, out, order, desc, False, F, second(F, 1, n), cls='size:near-integer-Q')
+                        finally:
+                            CUR['desc'] = None
+                            fttools.mdft.clear()
+                            fttools.czt.clear()
+    # through the wrappers (one P x P period: the return leg multiplies a P x P array, so only a few)
+    k = -1
+    for (nn, MM) in pairs[:ctx.pick(3, 10)]:
+        for via in WRAPPER_VIAS:
+            k += 1
+            if not ctx.mine(k):
+                continue
+            if ctx.quick and k >= 8:
+                continue
+            method = 'mdft' if (k // ctx.nshards) % 3 != 2 else 'czt'
+            shp = (1, nn) if (k // ctx.nshards) % 2 == 0 else (nn, 1)
+            order = 'focus-first' if via.endswith('to_fpm_and_back') else ('focus-first', 'unfocus-first')[k % 2]
+            wvl, efl, d1, d2 = _band_geometry(rng, shp[0], shp[1], MM)
+            s = (0, 0)                       # unshifted: a shift defect of the wrappers is not a size matter (wl_shifted_wrappers judges it)
+            seed = ctx.subseed(rng)
+            a = make_input(shp, True, seed)
+            desc = {'wl': 'near-integer-Q', 'engine': method, 'order': order, 'n': shp, 'out': (MM, MM), 'via': via, 'wvl': wvl, 'efl': efl, 'd1': d1, 'd2': d2,
+                    'shift_samples': s, 'seed': seed, 'k': 0, 'class': f'near-integer-Q:wrappers:{method}:{via}:{order}:{shape_kind(shp)}:Q~{round(MM / nn)}'}
+            ctx.case(desc)
+            ctx.observe('size.near-integer-Q')
+            CUR['desc'] = desc
+            try:
+                with ctx.guard(f'C02/{method}/band-complete/size:near-integer-Q', desc):
+                    F, back = wrapper_trip(P, via, order, a, shp, MM, wvl, efl, d1, d2, s, method)
+                    if shift_label(s) == 'none':
+                        judge_band(method, a, shp, (MM, MM), 'fwd-inv' if order == 'focus-first' else 'inv-fwd', desc, False, F, back, cls='size:near-integer-Q')
+                    else:
+                        judge_shifted(method, a, shp, (MM, MM), s, desc, False, F, back, cls='size:near-integer-Q')
+            finally:
+                CUR['desc'] = None
+                fttools.mdft.clear()
+                fttools.czt.clear()
+
+
+def homogeneous(routine, got, ref_scaled, s, desc, single):
+    """f(s a) against s f(a): 1e-11 (float32: 1e-3) of max|s f(a)|."""
+    from .. import propforms as PF
+    CTX.observe('scale.homogeneity')
+    got, ref = np.asarray(got), np.asarray(ref_scaled)
+    sc = float(np.max(np.abs(ref))) if ref.size else 0.0
+    tol = (HOMOG32 if single else HOMOG64) * sc
+    err = float(np.max(np.abs(got - ref))) if (got.shape == ref.shape and np.isfinite(got).all()) else float('inf')
+    if not err <= tol:
+        CTX.violation(f'C02/{routine}/scale:{PF.scale_class(s)}/not-homogeneous',
+                      f'{routine} is linear, but f(s a) != s f(a) for a field of magnitude s (tiny: s <= 1e-3, huge: s >= 1e3)', dict(desc, s=s), err=err, tol=tol,
+                      scale=sc)
+        return False
+    stat(f'scale.homogeneity/{"f32" if single else "f64"}', err, tol)
+    return True
+
+
+def wl_scales(ctx, rng):
+    """Class G: field magnitudes 1e-12 ... 1e12 through every linear routine of the property -- homogeneity against the unit-magnitude
+    result, and the ordinary laws (energy contracts, round trips, band pair, free-space group laws) on the scaled field."""
+    from prysm import propagation as P, fttools
+    from .. import propforms as PF
+    from ..util import precision
+    routines = ('focus', 'unfocus', 'angular_spectrum', 'angular_spectrum(tf)', 'dft2', 'idft2', 'czt2', 'iczt2', 'focus_fixed_sampling', 'unfocus_fixed_sampling')
+    k = -1
+    for rep in range(ctx.pick(3, 1200)):
+        for routine in routines:
+            for s in PF.SCALES:
+                k += 1
+                if not ctx.mine(k):
+                    continue
+                bits = 32 if (k // ctx.nshards) % 5 == 4 else 64
+                single = bits == 32
+                m, n = (int(v) for v in rng.integers(1, ctx.pick(10, 33), 2))
+                if m * n == 1:
+                    n = 3
+                seed = ctx.subseed(rng)
+                dk = ('complex', 'complex', 'real')[int(rng.integers(3))]
+                a = field_of_kind(dk, (m, n), seed, bits)
+                sa = (a * s).astype(a.dtype)
+                Qf = [1, 2, 1.5, 3][int(rng.integers(4))]
+                d = int(rng.integers(0, 6))
+                out = (m + d, n + int(rng.integers(0, 6)))
+                wvl, dx = [0.5, 1.55, 12.0][int(rng.integers(3))], [0.01, 0.1, 1.0][int(rng.integers(3))]
+                z = moderate_z(rng, (m, n), wvl, dx, float(np.finfo(np.float32 if single else np.float64).eps))
+                desc = {'wl': 'scales', 'routine': routine, 's': s, 'in': (m, n), 'bits': bits, 'seed': seed, 'field_dtype': str(a.dtype), 'k': 0,
+                        'class': f'scales:{routine}:{PF.scale_class(s)}:{shape_kind((m, n))}:p{bits}' + (f':{dk}' if dk != 'complex' else '')}
+                ctx.case(desc, nontrivial=nontrivial(a))
+                if not nontrivial(a):
+                    continue
+                CUR['desc'] = desc
+                try:
+                    with precision(bits), ctx.guard(f'C02/{routine}/scale:{PF.scale_class(s)}', desc):
+                        if routine in ('focus', 'unfocus'):
+                            f, g = (P.focus, P.unfocus) if routine == 'focus' else (P.unfocus, P.focus)
+                            r1, rs = f(a, Qf), f(sa, Qf)
+                            homogeneous(routine, rs, s * np.asarray(r1), s, desc, single)
+                            po = (math.ceil(m * Qf), math.ceil(n * Qf))
+                            field_close('fft.roundtrip', g(rs, 1), origin_pad(sa.astype(np.complex128), po),
+                                        f'C02/fft-roundtrip/{"unfocus(focus)" if routine == "focus" else "focus(unfocus)"}/{qclass(Qf)}/pad:{axes_class((m, n), po)}',
+                                        'the round trip through the padded FFT pair is not the origin-aligned zero padding of the field [scaled field]', desc, single)
+                        elif routine.startswith('angular_spectrum'):
+                            if routine.endswith('(tf)'):
+                                tf = np.array(P.angular_spectrum_transfer_function((m, n), wvl, dx, z), copy=True)
+                                r1 = P.angular_spectrum(a, wvl, dx, float('nan'), tf=tf)
+                                rs = P.Wavefront(sa, wvl, dx).free_space(tf=tf).data
+                            else:
+                                r1, rs = P.angular_spectrum(a, wvl, dx, z, Q=1), P.angular_spectrum(sa, wvl, dx, z, Q=1)
+                                P.angular_spectrum(sa, wvl, dx, z, Q=2)              # energy contract under padding
+                            homogeneous(routine, rs, s * np.asarray(r1), s, desc, single)
+                            sk = shape_kind((m, n))
+                            field_close('as.undo', P.angular_spectrum(rs, wvl, dx, -z, Q=1), sa, f'C02/free-space/z-then-minus-z/{sk}',
+                                        'propagating by z and then by -z does not return the field [scaled field]', desc, single, rtol64=1e-10, rtol32=1e-3)
+                            field_close('as.identity', P.angular_spectrum(sa, wvl, dx, 0.0, Q=1), sa, f'C02/free-space/z=0-not-identity/{sk}',
+                                        'free-space propagation by z = 0 is not the identity [scaled field]', desc, single, rtol64=1e-10, rtol32=1e-3)
+                        elif routine in ('dft2', 'idft2', 'czt2', 'iczt2'):
+                            engine = 'mdft' if 'dft' in routine else 'czt'
+                            f_fwd, f_inv = _engine_fns(engine)
+                            first, second = (f_fwd, f_inv) if routine in ('dft2', 'czt2') else (f_inv, f_fwd)
+                            Q = (out[0] / m, out[1] / n)
+                            r1, rs = first(a, Q, out), first(sa, Q, out)
+                            homogeneous(routine, rs, s * np.asarray(r1), s, desc, single)
+                            judge_band(engine, sa, (m, n), out, 'fwd-inv' if routine in ('dft2', 'czt2') else 'inv-fwd', desc, single, rs, second(rs, 1, (m, n)))
+                        else:
+                            Pb = max(m, n) + d
+                            method = ('mdft', 'czt')[int(rng.integers(2))]
+                            w_, efl, d1, d2 = _band_geometry(rng, m, n, Pb)
+                            order = 'focus-first' if routine.startswith('focus') else 'unfocus-first'
+                            F1, _b = wrapper_trip(P, 'function', order, a, (m, n), Pb, w_, efl, d1, d2, (0, 0), method)
+                            Fs, backs = wrapper_trip(P, ('function', 'Wavefront')[k % 2], order, sa, (m, n), Pb, w_, efl, d1, d2, (0, 0), method)
+                            homogeneous(routine, Fs, s * F1, s, dict(desc, method=method), single)
+                            judge_band(method, sa, (m, n), (Pb, Pb), 'fwd-inv' if order == 'focus-first' else 'inv-fwd', dict(desc, method=method), single, Fs, backs,
+                                       via='/fixed-sampling-pair')
+                finally:
+                    CUR['desc'] = None
+        fttools.mdft.clear()
+        fttools.czt.clear()
+
+
+def wl_units(ctx, rng):
+    """Class G: consistent changes of units.  Free space depends on wvl z / dx^2 only; the fixed-sampling pair on
+    lambda f / (dx_in dx_out) and shift / dx_out only."""
+    from prysm import propagation as P, fttools
+    from .. import propforms as PF
+    from ..util import precision
+    k = -1
+    for rep in range(ctx.pick(6, 2400)):
+        for (uname, al, ga, ze) in PF.FREE_SPACE_UNITS:
+            k += 1
+            if not ctx.mine(k):
+                continue
+            bits = 32 if (k // ctx.nshards) % 5 == 4 else 64
+            single = bits == 32
+            eps = float(np.finfo(np.float32 if single else np.float64).eps)
+            m, n = (int(v) for v in rng.integers(1, ctx.pick(12, 40), 2))
+            if m * n == 1:
+                m = 4
+            wvl, dx = [0.3, 0.55, 1.55, 12.0][int(rng.integers(4))], [1e-3, 0.01, 0.1, 1.0][int(rng.integers(4))]
+            z = moderate_z(rng, (m, n), wvl, dx, eps)
+            seed = ctx.subseed(rng)
+            a = make_input((m, n), True, seed, bits=bits)
+            via = ('function', 'Wavefront')[int(rng.integers(2))]
+            desc = {'wl': 'units', 'routine': 'angular_spectrum', 'units': uname, 'in': (m, n), 'wvl': wvl, 'dx': dx, 'z': z, 'via': via, 'bits': bits, 'seed': seed,
+                    'class': f'units:free-space:{uname}:{shape_kind((m, n))}:{via}:p{bits}'}
+            ctx.case(desc, nontrivial=nontrivial(a))
+            CUR['desc'] = desc
+            try:
+                with precision(bits), ctx.guard(f'C02/free-space/scale:units', desc):
+                    if via == 'function':
+                        r1 = P.angular_spectrum(a, wvl, dx, z, Q=1)
+                        r2 = P.angular_spectrum(a, wvl * ga, dx * al, z * ze, Q=1)
+                    else:
+                        r1 = P.Wavefront(a, wvl, dx).free_space(dz=z, Q=1).data
+                        r2 = P.Wavefront(a, wvl * ga, dx * al).free_space(dz=z * ze, Q=1).data
+                    cond = COND_MULT * eps * 4 * tf_phase((m, n), wvl, dx, z)
+                    field_close('scale.unit-invariance', r2, r1, f'C02/free-space/scale:units/result-changes-under-a-consistent-change-of-units/{shape_kind((m, n))}',
+                                'free-space propagation depends on wvl z / dx^2 only: the same propagation in other units of length gives another field', desc, single,
+                                rtol64=1e-10, rtol32=1e-3, extra_rtol=cond)
+                    t1 = P.angular_spectrum_transfer_function((m, n), wvl, dx, z)
+                    t2 = P.angular_spectrum_transfer_function((m, n), wvl * ga, dx * al, z * ze)
+                    field_close('scale.unit-invariance', t2, t1, 'C02/transfer_function/scale:units/result-changes-under-a-consistent-change-of-units',
+                                'the free-space transfer function depends on wvl z / dx^2 only', desc, single, rtol64=1e-10, rtol32=1e-3, extra_rtol=cond)
+                    # the group laws in the other units (the contracts judge energy / unit modulus on every call)
+                    back = P.angular_spectrum(np.asarray(r2), wvl * ga, dx * al, -z * ze, Q=1)
+                    field_close('as.undo', back, a, f'C02/free-space/z-then-minus-z/{shape_kind((m, n))}',
+                                'propagating by z and then by -z does not return the field [other units of length]', desc, single, rtol64=1e-10, rtol32=1e-3)
+            finally:
+                CUR['desc'] = None
+        for (uname, al, be, ga, de) in PF.UNIT_SYSTEMS:
+            k += 1
+            if not ctx.mine(k):
+                continue
+            bits = 32 if (k // ctx.nshards) % 5 == 4 else 64
+            single = bits == 32
+            m, n = (int(v) for v in rng.integers(2, ctx.pick(10, 25), 2))
+            Pb = max(m, n) + int(rng.integers(0, 8))
+            method = ('mdft', 'czt')[int(rng.integers(2))]
+            order = ('focus-first', 'unfocus-first')[int(rng.integers(2))]
+            via = ('function', 'Wavefront', 'to_fpm_and_back')[int(rng.integers(3))] if order == 'focus-first' else ('function', 'Wavefront')[int(rng.integers(2))]
+            pname, s = PF.SHIFT_PATTERNS[int(rng.integers(len(PF.SHIFT_PATTERNS)))]
+            wvl, efl, d1, d2 = _band_geometry(rng, m, n, Pb)
+            seed = ctx.subseed(rng)
+            a = make_input((m, n), True, seed, bits=bits)
+            desc = {'wl': 'units', 'routine': 'fixed-sampling-pair', 'units': uname, 'engine': method, 'order': order, 'via': via, 'n': (m, n), 'out': (Pb, Pb), 'wvl': wvl,
+                    'efl': efl, 'd1': d1, 'd2': d2, 'shift_samples': s, 'bits': bits, 'seed': seed, 'k': 0,
+                    'class': f'units:fixed-sampling-pair:{uname}:{method}:{via}:{order}:{pname}:p{bits}'}
+            ctx.case(desc, nontrivial=nontrivial(a))
+            CUR['desc'] = desc
+            try:
+                with precision(bits), ctx.guard(f'C02/{method}/band-complete/scale:units', desc):
+                    F1, b1 = wrapper_trip(P, via, order, a, (m, n), Pb, wvl, efl, d1, d2, s, method)
+                    # the first leg's input spacing scales with alpha, its output spacing with delta (and the other way round on the way back)
+                    F2, b2 = wrapper_trip(P, via, order, a, (m, n), Pb, wvl * ga, efl * be, d1 * al, d2 * de, s, method)
+                    if pname == 'none':
+                        held = judge_band(method, a, (m, n), (Pb, Pb), 'fwd-inv' if order == 'focus-first' else 'inv-fwd', desc, single, F2, b2,
+                                          via='/fixed-sampling-pair')
+                    else:
+                        held = judge_shifted(method, a, (m, n), (Pb, Pb), s, desc, single, F2, b2, level='wrappers')
+                    if not held:
+                        continue            # the comparison below would restate the same defect (or the case is ill-conditioned)
+                    r = rtol_for(method, single, (m, n), (Pb / m, Pb / n), (Pb, Pb), (float(s[0]), float(s[1])))
+                    if r is None:
+                        ctx.skip('band-complete: kernel phase beyond the resolution of the working precision (ill-conditioned)')
+                        continue
+                    CTX.observe('scale.unit-invariance')
+                    sc = float(np.sqrt(np.sum(np.abs(a.astype(np.complex128)) ** 2)))
+                    err = float(np.max(np.abs(F2 - F1))) if F2.shape == F1.shape and np.isfinite(F2).all() else float('inf')
+                    if not err <= r * sc:
+                        CTX.violation(f'C02/{method}/band-complete/scale:units/result-changes-under-a-consistent-change-of-units',
+                                      'fixed-sampling propagation depends on lambda f / (dx_in dx_out) and shift / dx_out only: the same propagation in other units gives '
+                                      'another field', desc, err=err, tol=r * sc)
+            finally:
+                CUR['desc'] = None
+        if rep % 8 == 7:
+            fttools.mdft.clear()
+            fttools.czt.clear()
+    fttools.mdft.clear()
+    fttools.czt.clear()
+
+
+SPECIAL_Z = (0.0, -0.0, 0, 5e-324, -5e-324, 1e-300, -1e-300, 1e-30, -1e-30)
+
+
+def wl_special_z(ctx, rng):
+    """Class H for free space: z = 0 exactly (float, negative zero, python int, numpy scalars) and z = +-tiny: the identity; the
+    transfer function is all ones to rounding; also under padding (energy contract) and as the second leg of z then -z."""
+    from prysm import propagation as P
+    from ..util import precision
+    k = -1
+    for rep in range(ctx.pick(5, 2400)):
+        for zi, z in enumerate(SPECIAL_Z):
+            for via in ('function', 'Wavefront', 'tf'):
+                k += 1
+                if not ctx.mine(k):
+                    continue
+                bits = 32 if (k // ctx.nshards) % 5 == 4 else 64
+                single = bits == 32
+                m, n = (int(v) for v in rng.integers(1, ctx.pick(12, 48), 2))
+                if m * n == 1:
+                    n = 5
+                wvl, dx = [0.3, 0.55, 1.55, 12.0][int(rng.integers(4))], [1e-3, 0.01, 0.1, 1.0][int(rng.integers(4))]
+                zz = z
+                if rep % 3 == 1 and isinstance(z, float):
+                    zz = np.float64(z)
+                elif rep % 3 == 2 and isinstance(z, float) and bits == 32 and float(np.float32(z)) == z:
+                    zz = np.float32(z)
+                seed = ctx.subseed(rng)
+                dk = DATA_KINDS[(k // ctx.nshards) % len(DATA_KINDS)]
+                a = field_of_kind(dk, (m, n), seed, bits)
+                zc = 'zero' if float(z) == 0 else 'tiny'
+                desc = {'wl': 'special-z', 'z': repr(zz), 'in': (m, n), 'wvl': wvl, 'dx': dx, 'via': via, 'bits': bits, 'seed': seed, 'field_dtype': str(a.dtype),
+                        'class': f'special-z:{zc}:{type(zz).__name__}:{via}:{shape_kind((m, n))}:p{bits}' + (f':{dk}' if dk != 'complex' else '')}
+                ctx.case(desc, nontrivial=nontrivial(a))
+                if not nontrivial(a):
+                    continue
+                CUR['desc'] = desc
+                try:
+                    with precision(bits), ctx.guard(f'C02/free-space/special:z={zc}', desc):
+                        if via == 'function':
+                            o = P.angular_spectrum(a, wvl, dx, zz, Q=1)
+                            P.angular_spectrum(a, wvl, dx, zz)                      # default Q = 2: energy contract
+                        elif via == 'Wavefront':
+                            o = P.Wavefront(a, wvl, dx).free_space(dz=zz, Q=1).data
+                        else:
+                            tf = P.angular_spectrum_transfer_function((m, n), wvl, dx, zz)
+                            field_close('special.free-space-z', tf, np.ones((m, n)), f'C02/transfer_function/special:z={zc}/not-all-ones',
+                                        'the free-space transfer function at z = 0 / |z| <= 1e-30 is not 1 everywhere', desc, single, rtol64=1e-12, rtol32=1e-5)
+                            o = P.angular_spectrum(a, wvl, dx, float('nan'), tf=tf)
+                        ref = a.astype(np.complex128) if a.dtype.kind != 'c' else a
+                        field_close('special.free-space-z', o, ref, f'C02/free-space/z=0-not-identity/{shape_kind((m, n))}/special:z={zc}',
+                                    'free-space propagation by z = 0 (or |z| <= 1e-30) is not the identity', desc, single, rtol64=1e-10, rtol32=1e-3)
+                        # a real step, then the special step, then back
+                        z1 = moderate_z(rng, (m, n), wvl, dx, float(np.finfo(np.float32 if single else np.float64).eps))
+                        o2 = P.angular_spectrum(P.angular_spectrum(P.angular_spectrum(a, wvl, dx, z1, Q=1), wvl, dx, zz, Q=1), wvl, dx, -z1, Q=1)
+                        field_close('as.undo', o2, ref, f'C02/free-space/z-then-minus-z/{shape_kind((m, n))}',
+                                    'propagating by z, by 0 (or a denormal distance) and by -z does not return the field', desc, single, rtol64=1e-10, rtol32=1e-3)
+                finally:
+                    CUR['desc'] = None
+
+
+def wl_sizes(ctx, rng):
+    """Class I: the FFT pair and free space at prime / awkward lengths (65 ... 257) and at axes of 509 ... 1024 samples (thin arrays
+    and a few 2-D ones); the random fields fill the arrays up to the border."""
+    from prysm import propagation as P
+    from .. import propforms as PF
+    from ..util import precision
+    shapes = [PF.thin(n, i) for i, n in enumerate(PF.AWKWARD_SIZES + PF.LARGE_SIZES)] + [(67, 74), (101, 65), (127, 129), (257, 3), (65, 65), (127, 127)]
+    if not ctx.quick:
+        shapes += [PF.thin(n, i + 1) for i, n in enumerate(PF.AWKWARD_SIZES + PF.LARGE_SIZES)] + [(257, 257), (509, 67), (129, 521), (131, 137), (211, 2), (1, 997)]
+    k = -1
+    for (m, n) in shapes:
+        for Q in (1, 2, 1.5):
+            for what in ('fft', 'as'):
+                k += 1
+                if not ctx.mine(k):
+                    continue
+                if max(m, n) * Q > 2100:
+                    continue
+                bits = 32 if (k // ctx.nshards) % 5 == 4 else 64
+                single = bits == 32
+                seed = ctx.subseed(rng)
+                a = make_input((m, n), True, seed, bits=bits)
+                desc = {'wl': 'sizes', 'what': what, 'in': (m, n), 'Q': Q, 'bits': bits, 'seed': seed,
+                        'class': f'sizes:{what}:{shape_kind((m, n))}:{max(m, n)}:{qclass(Q)}:p{bits}'}
+                ctx.case(desc)
+                ctx.observe('size.awkward')
+                CUR['desc'] = desc
+                try:
+                    if what == 'fft':
+                        with precision(bits), ctx.guard('C02/fft-pair', desc):
+                            out = (math.ceil(m * Q), math.ceil(n * Q))
+                            ref = origin_pad(a, out)
+                            cls = f'{qclass(Q)}/pad:{axes_class((m, n), out)}'
+                            field_close('fft.roundtrip', P.unfocus(P.focus(a, Q), 1), ref, f'C02/fft-roundtrip/unfocus(focus)/{cls}',
+                                        'unfocus(focus(a,Q),1) is not the origin-aligned zero padding of a [prime / large size]', desc, single)
+                            w2 = P.Wavefront(a, 0.55, 3.0, space='psf')
+                            field_close('fft.roundtrip', w2.unfocus(100., Q=Q).focus(100., Q=1).data, ref, f'C02/fft-roundtrip/focus(unfocus)/{cls}',
+                                        'focus(unfocus(a,Q),1) is not the origin-aligned zero padding of a [prime / large size]', desc, single)
+                    else:
+                        with precision(bits), ctx.guard('C02/free-space', desc):
+                            eps = float(np.finfo(np.float32 if single else np.float64).eps)
+                            wvl, dx = 0.55, [0.01, 0.1, 1.0][k % 3]
+                            z = moderate_z(rng, (m, n), wvl, dx, eps)
+                            sk = shape_kind((m, n))
+                            fwd = P.angular_spectrum(a, wvl, dx, z, Q=1)
+                            field_close('as.undo', P.Wavefront(fwd, wvl, dx).free_space(dz=-z).data, a, f'C02/free-space/z-then-minus-z/{sk}',
+                                        'propagating by z and then by -z does not return the field [prime / large size]', desc, single, rtol64=1e-10, rtol32=1e-3)
+                            field_close('as.identity', P.angular_spectrum(a, wvl, dx, 0.0, Q=1), a, f'C02/free-space/z=0-not-identity/{sk}',
+                                        'free-space propagation by z = 0 is not the identity [prime / large size]', desc, single, rtol64=1e-10, rtol32=1e-3)
+                            cond = COND_MULT * eps * 3 * tf_phase((m, n), wvl, dx, z)
+                            two = P.angular_spectrum(P.angular_spectrum(a, wvl, dx, z / 2, Q=1), wvl, dx, z / 2, Q=1)
+                            field_close('as.compose', two, fwd, f'C02/free-space/z1-then-z2!=z1+z2/{sk}', 'two steps of z/2 differ from one step of z [prime / large size]',
+                                        desc, single, rtol64=1e-10, rtol32=1e-3, extra_rtol=cond)
+                            if Q != 1:
+                                P.angular_spectrum(a, wvl, dx, z, Q=Q)          # energy contract under padding
+                finally:
+                    CUR['desc'] = None
+
+
 def run(ctx):
     global CTX
     CTX = ctx
@@ -1122,6 +1742,13 @@ def run(ctx):
         timed('band-wrappers', wl_band_wrappers, ctx, ctx.rng('c02-band-wrappers'))
         timed('forms', wl_forms, ctx, ctx.rng('c02-forms'))
         timed('foreign', wl_foreign, ctx, ctx.rng('c02-foreign'))
+        timed('shifted-band', wl_shifted_band, ctx, ctx.rng('c02-shifted-band'))
+        timed('shifted-wrappers', wl_shifted_wrappers, ctx, ctx.rng('c02-shifted-wrappers'))
+        timed('near-integer-Q', wl_near_integer, ctx, ctx.rng('c02-near-integer'))
+        timed('scales', wl_scales, ctx, ctx.rng('c02-scales'))
+        timed('units', wl_units, ctx, ctx.rng('c02-units'))
+        timed('special-z', wl_special_z, ctx, ctx.rng('c02-special-z'))
+        timed('sizes', wl_sizes, ctx, ctx.rng('c02-sizes'))
         ctx.note('workload_seconds(first shard)', secs)
         ctx.note('largest_error_over_tolerance_among_held_comparisons(first shard)', {k: float(f'{v:.2e}') for k, v in sorted(STATS.items())})
     finally:
